@@ -215,7 +215,14 @@ def _find_shebang(source):
     if isinstance(source, bytes):
         shebang = re.match(br'^#![^\r\n]*', source)
         if shebang:
-            return shebang.group().decode()
+            try:
+                return shebang.group().decode()
+            except UnicodeDecodeError:
+                # The shebang line is in the encoding declared on the first or second line (PEP 263)
+                cookie = re.match(br'^(?:[^\r\n]*(?:\r\n|\r|\n))?[ \t\f]*#[^\r\n]*?coding[:=][ \t]*([-\w.]+)', source)
+                if cookie is None:
+                    raise
+                return shebang.group().decode(cookie.group(1).decode('ascii'))
     else:
         shebang = re.match(r'^#![^\r\n]*', source)
         if shebang:
